@@ -132,7 +132,7 @@ def decide(prop, tier, seed):
             continue
         n = o["name"]
         if n in known_full:
-            restricted = by_name.get(n + ".outside_known_class")
+            restricted = by_name.get(known_full[n].get("twin") or (n + ".outside_known_class"))
             if restricted is None:
                 undecided.append((o["unit"], "known finding %s has no restricted twin" % n))
             elif restricted["status"] == "discharged":
